@@ -1924,7 +1924,10 @@ def SIR_homogeneous_meanfield_from_graph(G, tau, gamma, initial_infecteds=None,
         I0 = rho*G.order()
     else:
         I0 = 1.
-    R0 = len(initial_recovereds)
+    if initial_recovereds is None:
+        R0 = 0
+    else:
+        R0 = len(initial_recovereds)
         
     S0 = G.order()-I0 - R0
     return SIR_homogeneous_meanfield(S0, I0, R0, kave, tau, gamma, tmin=tmin, tmax=tmax, 
